@@ -370,7 +370,48 @@ func c12Gen(rng *verifsim.RNG, idx int, tier string) *Plan {
 	horizon := rng.Dur(4*time.Second, 30*time.Second)
 	p.Horizon = int64(horizon)
 
-	switch rng.Pick(3, 2, 5, 2) {
+	switch rng.Pick(3, 2, 5, 2, 3) {
+	case 4:
+		// our own RA changes while peers keep talking: a wildcard prefix whose
+		// expansion follows the interface's addresses, deprecated stanzas counting
+		// down; every peer RA must be judged against the RA we would send *now*
+		p.Class = "dynamic-own"
+		s.Prefixes = []PrefixSpec{{Prefix: sp("::/64"), Valid: sp("1800s"), Preferred: sp("600s")}}
+		if rng.Bool(0.5) {
+			s.Routes = []RouteSpec{{Prefix: sp("::/0"), Lifetime: sp("1800s")}}
+		}
+		iw := &n.Ifaces[0]
+		pool := []string{"2001:db8:1::1/64", "2001:db8:2::1/64", "fd00:3::1/64"}
+		table := func() []AddrW {
+			as := []AddrW{{CIDR: iw.LL + "/64", Forever: true}}
+			for _, a := range pool {
+				if rng.Bool(0.5) {
+					as = append(as, AddrW{CIDR: a})
+				}
+			}
+			return as
+		}
+		iw.Addrs = table()
+		peer := func() *RASpec {
+			ra := &RASpec{Hop: 64, Lifetime: 1800}
+			for _, pf := range []string{"2001:db8:1::/64", "2001:db8:2::/64", "fd00:3::/64"} {
+				if rng.Bool(0.7) {
+					ra.Opts = append(ra.Opts, OptSpec{Kind: "prefix", Prefix: pf, OnLink: true, Auto: true,
+						Valid: []uint32{1800, 900}[rng.Intn(2)], Pref: []uint32{600, 300}[rng.Intn(2)]})
+				}
+			}
+			return ra
+		}
+		t := int64(0)
+		for i, k := 0, rng.Range(3, 8); i < k; i++ {
+			t += int64(rng.Dur(100*time.Millisecond, 3*time.Second))
+			if rng.Bool(0.5) {
+				p.Actions = append(p.Actions, Action{At: t + jitter(rng), Kind: "addrs", If: "eth0", Addrs: table()})
+				t += int64(rng.Dur(10*time.Millisecond, time.Second))
+			}
+			p.Actions = append(p.Actions, Action{At: t + jitter(rng), Kind: "ra", If: "eth0", Src: "fe80::5:1", RA: peer()})
+		}
+		p.Horizon = t + 2*nsSec
 	case 0:
 		// twin: a second real CoreRAD with the same configuration on the same link
 		p.Class = "twin"
@@ -533,8 +574,34 @@ func c12Oracle(info *runInfo, res *verifsim.Result) {
 		r := sp.r
 		theirs := r.msg.(*ndp.RouterAdvertisement)
 		if sp.build == nil {
-			// stop arrived first, or the consistency check could not even read the forwarding state
-			continue
+			if stopT, _, _ := stopInstant(h, r.node); stopT != 0 && r.t >= stopT {
+				continue // stop arrived first
+			}
+			// Our own RA was not rebuilt for this peer RA (a cached copy?): judge the
+			// report against the RA we would send now, from the world's state.
+			sp.build = &build{node: r.node, ifn: r.ifn, t1: r.t, t2: r.t, fwd: worldFwdAt(info, r.node, r.ifn, r.seq)}
+			spec0 := info.plan.Nodes[r.node].Config.ifaceSpecFor(r.ifn)
+			for _, pf := range spec0.Prefixes {
+				if pf.Prefix == nil || *pf.Prefix == "" || *pf.Prefix == "::/64" {
+					sp.build.addr = append(sp.build.addr, worldAddrsAt(info, r.node, r.ifn, r.seq))
+				}
+			}
+			for _, rd := range spec0.RDNSS {
+				auto := len(rd.Servers) == 0
+				for _, sv := range rd.Servers {
+					if sv == "::" {
+						auto = true
+					}
+				}
+				if auto {
+					sp.build.addr = append(sp.build.addr, worldAddrsAt(info, r.node, r.ifn, r.seq))
+				}
+			}
+			for _, rt := range spec0.Routes {
+				if rt.Prefix == nil || *rt.Prefix == "" || *rt.Prefix == "::/0" {
+					sp.build.routes = append(sp.build.routes, routeListString(info.plan.Loop))
+				}
+			}
 		}
 		spec := info.plan.Nodes[r.node].Config.ifaceSpecFor(r.ifn)
 		g := h.byKey[genKey(r.node, r.ifn, r.gen)]
@@ -647,4 +714,26 @@ func incStrings(l []inconsistency) []string {
 
 func init() {
 	register("C12", nil, c12Gen, c12Oracle)
+}
+
+// worldAddrsAt returns the interface's address table as of event seq, in the
+// listing format of the rtnetlink responder.
+func worldAddrsAt(info *runInfo, node int, ifn string, seq int) string {
+	var as []AddrW
+	for _, iw := range info.plan.Nodes[node].Ifaces {
+		if iw.Name == ifn {
+			as = iw.Addrs
+		}
+	}
+	out := addrListString(as)
+	for i := range info.ev {
+		e := &info.ev[i]
+		if e.Seq >= seq {
+			break
+		}
+		if e.K == "act.addrs" && e.Node == node && e.If == ifn {
+			out = e.S
+		}
+	}
+	return out
 }
